@@ -132,6 +132,7 @@ type runner struct {
 	perKind        map[string]int
 	descRuns       int // optimized runs whose initial cells include a proper descendant of an index cell
 	descRunsBig    int // ... of these, the index cell holds >= 10 edges (it is enqueued, not processed directly)
+	leafIndexes    int // indexes generated with level-30 index cells
 }
 
 // violate reports at most a few violations per kind so that one class does not hide the others.
@@ -503,6 +504,8 @@ func run(c *vkit.Collector, rng *vkit.Rng, budget int) {
 	r.approxStream(budget)
 	r.bigCellStream(budget)
 	r.reuseStream(budget)
+	r.leafStream(budget)
+	r.interiorStream(budget)
 	kinds := []string{"point", "edge", "cell", "index"}
 	nIdx := 60 * budget
 	for i := 0; i < nIdx; i++ {
